@@ -142,6 +142,11 @@ Definition emit_ops_m (u : url) (H : host) (segs : list str) : list sop :=
   (flat_map (fun x => [OStartPathSeg; OAppend x; OSavePathSeg]) segs ++ [OCommitPath]) ++
   opt_ops_m P_QUERY 512 (query u) ++ opt_ops_m P_FRAGMENT 1024 (fragment u).
 
+Definition emit_null_ops_m (u : url) (seg0 : str) (segs : list str) : list sop :=
+  [OStartScheme; OAppend (scheme u); OSaveScheme; OStartPathSeg; OAppend seg0; OSavePathSeg] ++
+  (flat_map (fun x => [OStartPathSeg; OAppend x; OSavePathSeg]) segs ++ [OCommitPath]) ++
+  opt_ops_m P_QUERY 512 (query u) ++ opt_ops_m P_FRAGMENT 1024 (fragment u).
+
 Definition parsetrace_line (line : str) : option str :=
   match split_spaces line with
   | c :: args =>
@@ -162,6 +167,13 @@ Definition parsetrace_line (line : str) : option str :=
                          the query / fragment state without commit_path (a no-op there: ser_pathname_raw, first case) *)
                       let skip_cp := match segs with [] => is_some (query u) || is_some (fragment u) | _ => false end in
                       let visible := filter (fun o => match o with OSetFlag _ => false | OCommitPath => negb skip_cp | _ => true end) ops in
+                      Some (lit "parsetrace" ++ ops_str visible ++ lit " | " ++ repr_str r ++ lit " rec=" ++ b01 (repr_eqb r (repr_of u)))
+                  | None, PList (seg0 :: segs) =>
+                      (* null host, list path: emit_null_ops of Proofs/SerializerEmitNull.v (C01_emit_null_repr) *)
+                      if is_file u then Some (lit "parsetrace unsupported") else
+                      let ops := emit_null_ops_m u seg0 segs in
+                      let r := norm_tail_m (s_r (run false (init_sst (mk_repr [] [0;0;0;0;0;0;0;0;0;0;0] 269 0) false) ops)) in
+                      let visible := filter (fun o => match o with OSetFlag _ => false | _ => true end) ops in
                       Some (lit "parsetrace" ++ ops_str visible ++ lit " | " ++ repr_str r ++ lit " rec=" ++ b01 (repr_eqb r (repr_of u)))
                   | _, _ => Some (lit "parsetrace unsupported")
                   end
